@@ -22,7 +22,8 @@ RULE = ('seeded random pairs of time-indexed tables: equal index, nested (b = a[
         'non-trivial = anything but (first argument sparser, one fixed offset), the only direction the '
         'existing test executes; distinct = generator parameters'
         ' Round 3: angles stored unwrapped / several turns off (tables and Series, either operand), states within metres of the antimeridian perturbed across it.'
-        ' Round 4: tables on any time origin (0, 1e3, seconds of week, seconds since 1970; tolerance eps |t| / dt times the change per interval); as many requested times as rows, each 1e-7..0.3 intervals away from a stamp.')
+        ' Round 4: tables on any time origin (0, 1e3, seconds of week, seconds since 1970; tolerance eps |t| / dt times the change per interval); as many requested times as rows, each 1e-7..0.3 intervals away from a stamp.'
+        ' Round 5: a bool flag column and a numeric column stored with dtype object must be interpolated linearly like any other column.')
 ASSUMPTIONS = ['own interpolation / slerp reference agrees with the documented behaviour (piecewise linear, '
                'shortest-arc SLERP)', 'rounding bound 1e-7 output units for interpolation at own nodes',
                'at an angle difference of exactly +-180 the closed end -180 is accepted (half-open range and '
